@@ -22,7 +22,7 @@ import (
 func init() { drivers["C10"] = c10 }
 
 // C10: every generator that feeds untrusted bytes / messages / collateral to a public entry point is re-run under the
-// crash-only oracle (any panic, any call that does not return within 5 s), and the entry points no other driver reaches
+// crash-only oracle (any panic, any call that does not return within 30 s), and the entry points no other driver reaches
 // with adversarial input are exercised here.
 func c10(r *hx.Run) {
 	r.CrashOnly = true
@@ -34,12 +34,12 @@ func c10(r *hx.Run) {
 	thorough := r.Tier == "thorough"
 
 	crashCase := func(name string, key string, f func() string) {
-		obs, stack := hx.GuardTimeout(5*time.Second, f)
+		obs, stack := hx.GuardTimeout(30*time.Second, f)
 		fail := ""
 		if obs == "panic" {
 			fail = "crash: " + strings.SplitN(stack, "\n", 2)[0]
 		} else if obs == "hang" {
-			fail = "hang: no result after 5 s"
+			fail = "hang: no result after 30 s"
 		}
 		r.Emit("# C10."+name+" "+key, obs, fail, name+"|"+key, true, "c10:"+name, "obs:"+obs)
 	}
